@@ -523,6 +523,10 @@ func checkC14Route(c C14RouteCase) error {
 		return fmt.Errorf("route %s, %d bytes of literal text in the middle: %s (output %d bytes, want %d)", c.Route, c.Pad, firstLine(r.Err)+r.Panic, len(r.Out), len(want))
 	}
 	if c.Route != "parse" {
+		// through RenderTo into a writer that has only Write
+		if rp := renderPlain(e, "big", ctx); rp.Failed() || rp.Out != want {
+			return fmt.Errorf("route %s, %d bytes of literal text in the middle, RenderTo into a writer without WriteString: %s (output %d bytes, want %d)", c.Route, c.Pad, firstLine(rp.Err)+rp.Panic, len(rp.Out), len(want))
+		}
 		// and again, and through an include
 		e.RegisterString("outer", "[{% include 'big' %}]")
 		for _, name := range []string{"big", "outer"} {
